@@ -200,7 +200,7 @@ def execute(case):
         return exec_set(case)
     if case["kind"] == "advance":
         return exec_advance(case)
-    return [bad("C04.replay", "pure-level cases are replayed by re-running the check")]
+    return exec_pure(case)
 
 
 def build_set(case):
@@ -223,6 +223,28 @@ def build_set(case):
         return seqs, idx, predicted_collision, pipe.build(w, srcs, over)
     except Exception as e:
         return seqs, idx, predicted_collision, e
+
+
+def exec_pure(case, prefix="C04"):
+    from vmc.drive import inproc
+
+    inproc.init()
+    from nanoemoji import codepoints
+    from nanoemoji.glyph import glyph_name
+
+    if case["kind"] == "name":
+        n = glyph_name(tuple(case["seq"]))
+        return [ok(prefix + ".name-legal")] if FEA_NAME.match(n) else [bad(prefix + ".name-legal", f"{n!r} is not legal in a feature file")]
+    if case["kind"] == "name-pair":
+        a, b = tuple(case["a"]), tuple(case["b"])
+        if glyph_name(a) == glyph_name(b):
+            return [bad(prefix + ".name-injective", f"{[hex(c) for c in a]} and {[hex(c) for c in b]} both get {glyph_name(a)!r}")]
+        return [ok(prefix + ".name-injective")]
+    if case["kind"] == "filename":
+        s_ = tuple(case["seq"])
+        got = tuple(codepoints.from_filename(stem(s_, case["style"])))
+        return [ok(prefix + ".filename-roundtrip")] if got == s_ else [bad(prefix + ".filename-roundtrip", f"{stem(s_, case['style'])} parses to {[hex(c) for c in got]}")]
+    return [bad(prefix + ".replay", f"unknown case kind {case.get('kind')}")]
 
 
 def exec_set(case):
